@@ -1,6 +1,264 @@
 package main
 
-func (w *world) emitFacts() string  { return header + "namespace Gen.Facts\nend Gen.Facts\n" }
-func (w *world) emitDriver() string { return header }
-func (w *world) emitMeta() string   { return "{}" }
-func (w *world) emitShim() string   { return "" }
+import (
+	"encoding/json"
+	"fmt"
+	"go/types"
+	"sort"
+	"strings"
+)
+
+// splitTop splits s at top-level occurrences of sep (outside parentheses).
+func splitTop(s, sep string) []string {
+	var out []string
+	depth := 0
+	last := 0
+	for i := 0; i < len(s); i++ {
+		switch s[i] {
+		case '(':
+			depth++
+		case ')':
+			depth--
+		}
+		if depth == 0 && strings.HasPrefix(s[i:], sep) {
+			out = append(out, strings.TrimSpace(s[last:i]))
+			last = i + len(sep)
+			i += len(sep) - 1
+		}
+	}
+	out = append(out, strings.TrimSpace(s[last:]))
+	return out
+}
+
+func stripParens(s string) string {
+	s = strings.TrimSpace(s)
+	for strings.HasPrefix(s, "(") && strings.HasSuffix(s, ")") {
+		// make sure the parens match each other
+		depth := 0
+		ok := true
+		for i := 0; i < len(s)-1; i++ {
+			if s[i] == '(' {
+				depth++
+			} else if s[i] == ')' {
+				depth--
+			}
+			if depth == 0 {
+				ok = false
+				break
+			}
+		}
+		if !ok {
+			break
+		}
+		s = strings.TrimSpace(s[1 : len(s)-1])
+	}
+	return s
+}
+
+// zeroOfLean gives the token encoding of the zero value of a generated Lean type.
+func (w *world) zeroOfLean(t string) []string {
+	t = stripParens(t)
+	if parts := splitTop(t, " × "); len(parts) > 1 {
+		var out []string
+		out = append(out, w.zeroOfLean(parts[0])...)
+		out = append(out, w.zeroOfLean(strings.Join(parts[1:], " × "))...)
+		return out
+	}
+	switch {
+	case t == "String", t == "Lib.Bytes":
+		return []string{"x"}
+	case t == "Int", t == "Bool":
+		return []string{"0"}
+	case t == "Err", strings.HasPrefix(t, "Option "):
+		return []string{"-"}
+	case strings.HasPrefix(t, "List "):
+		return []string{"0"}
+	case t == "Unit":
+		return nil
+	case t == "Lib.Stream":
+		return []string{"x", "0"}
+	case t == "UrlRec":
+		return []string{"x", "x", "x", "0"}
+	case t == "KeyRec":
+		return []string{"0"}
+	}
+	if si, ok := w.structs[t]; ok {
+		var out []string
+		for _, f := range w.structFields(si) {
+			out = append(out, w.zeroOfLean(w.leanType(f.Type()))...)
+		}
+		return out
+	}
+	panic("zeroOfLean: " + t)
+}
+
+func (w *world) emitDriver() string {
+	var sb strings.Builder
+	sb.WriteString(header)
+	sb.WriteString("import SamlModel.Generated.Funcs\nimport SamlModel.Tok\n\nopen Go Tok\nset_option linter.unusedVariables false\n\nnamespace Gen\n\n")
+	sb.WriteString("instance : Codec UrlRec where\n  enc v := enc v.Scheme ++ enc v.Host ++ enc v.Fragment ++ enc v.queryKeys\n  dec ts := do\n    let (a, ts) ← (dec ts : Option (String × _))\n    let (b, ts) ← (dec ts : Option (String × _))\n    let (c, ts) ← (dec ts : Option (String × _))\n    let (d, ts) ← (dec ts : Option (List String × _))\n    pure ({ Scheme := a, Host := b, Fragment := c, queryKeys := d }, ts)\n\n")
+	sb.WriteString("instance : Codec KeyRec where\n  enc v := enc v.isZero\n  dec ts := do\n    let (a, ts) ← (dec ts : Option (Bool × _))\n    pure ({ isZero := a }, ts)\n\n")
+	for _, si := range w.structOrder() {
+		fs := w.structFields(si)
+		fmt.Fprintf(&sb, "instance : Codec %s where\n", si.lean)
+		if len(fs) == 0 {
+			sb.WriteString("  enc _ := []\n  dec ts := some ({}, ts)\n\n")
+			continue
+		}
+		var encs []string
+		for _, f := range fs {
+			encs = append(encs, "enc v."+f.Name())
+		}
+		fmt.Fprintf(&sb, "  enc v := %s\n  dec ts := do\n", strings.Join(encs, " ++ "))
+		var inits []string
+		for i, f := range fs {
+			fmt.Fprintf(&sb, "    let (f%d, ts) ← (dec ts : Option (%s × _))\n", i, w.leanType(f.Type()))
+			inits = append(inits, fmt.Sprintf("%s := f%d", f.Name(), i))
+		}
+		fmt.Fprintf(&sb, "    pure ({ %s }, ts)\n\n", strings.Join(inits, ", "))
+	}
+	// oracle decoder
+	sb.WriteString("def decOra (ts : List String) : Option (Ora × List String) := do\n")
+	var inits []string
+	for _, n := range w.oraOrd {
+		o := w.oracles[n]
+		parts := splitTop(o.typ, " → ")
+		if len(parts) == 1 {
+			fmt.Fprintf(&sb, "  let (%s, ts) ← (dec ts : Option ((%s) × _))\n", n, o.typ)
+			inits = append(inits, fmt.Sprintf("%s := %s", n, n))
+		} else {
+			res := parts[len(parts)-1]
+			fmt.Fprintf(&sb, "  let (%s, ts) ← (dec ts : Option (Table (%s) × _))\n", n, res)
+			var as, encs []string
+			for i := range parts[:len(parts)-1] {
+				as = append(as, fmt.Sprintf("a%d", i))
+				encs = append(encs, fmt.Sprintf("enc a%d", i))
+			}
+			inits = append(inits, fmt.Sprintf("%s := fun %s => %s.get (%s)", n, strings.Join(as, " "), n, strings.Join(encs, " ++ ")))
+		}
+	}
+	if len(inits) == 0 {
+		sb.WriteString("  pure ({}, ts)\n\n")
+	} else {
+		fmt.Fprintf(&sb, "  pure ({ %s }, ts)\n\n", strings.Join(inits, ", "))
+	}
+	sb.WriteString("/-- `fn <name> <oracle answers> <arguments>` → tokens of the result -/\ndef fnDispatch (name : String) (ts : List String) : Option (List String) :=\n  match name with\n")
+	for _, spec := range whitelist {
+		f := w.funcs[spec.key()]
+		if f.failed != "" {
+			continue
+		}
+		fmt.Fprintf(&sb, "  | %s => do\n    let (o, ts) ← decOra ts\n", leanStr(f.lean))
+		var args []string
+		i := 0
+		for _, p := range f.params {
+			if p.kind == "ignored" || p.name == "_" || p.name == "" {
+				continue
+			}
+			fmt.Fprintf(&sb, "    let (a%d, ts) ← (dec ts : Option (%s × _))\n", i, p.leanTy)
+			args = append(args, fmt.Sprintf("a%d", i))
+			i++
+		}
+		fmt.Fprintf(&sb, "    if !ts.isEmpty then none else\n    pure (enc (%s o %s))\n", f.lean, strings.Join(args, " "))
+	}
+	sb.WriteString("  | _ => none\n\nend Gen\n")
+	return sb.String()
+}
+
+type metaField struct {
+	Go   string `json:"go"`
+	Lean string `json:"lean"`
+}
+type metaParam struct {
+	Name string `json:"name"`
+	Kind string `json:"kind"`
+	Lean string `json:"lean"`
+}
+type metaFunc struct {
+	Key     string      `json:"key"`
+	Lean    string      `json:"lean"`
+	Params  []metaParam `json:"params"`
+	Ret     []string    `json:"ret"`
+	UsesOra bool        `json:"uses_ora"`
+	Failed  string      `json:"failed,omitempty"`
+}
+type metaOra struct {
+	Name  string   `json:"name"`
+	Type  string   `json:"type"`
+	Table bool     `json:"table"`
+	Zero  []string `json:"zero"`
+}
+type metaAll struct {
+	Structs map[string][]metaField `json:"structs"`
+	Funcs   []metaFunc             `json:"funcs"`
+	Oracles []metaOra              `json:"oracles"`
+	Pool    []string               `json:"pool"`
+	Facts   map[string]interface{} `json:"facts"`
+}
+
+func (w *world) emitMeta() string {
+	m := metaAll{Structs: map[string][]metaField{}, Facts: w.factsJSON()}
+	for _, si := range w.structOrder() {
+		var fs []metaField
+		for _, f := range w.structFields(si) {
+			fs = append(fs, metaField{f.Name(), w.leanType(f.Type())})
+		}
+		m.Structs[si.lean] = fs
+	}
+	for _, spec := range whitelist {
+		f := w.funcs[spec.key()]
+		mf := metaFunc{Key: spec.key(), Lean: f.lean, UsesOra: f.usesOra, Failed: f.failed}
+		if f.failed == "" {
+			for _, p := range f.params {
+				mf.Params = append(mf.Params, metaParam{p.name, p.kind, p.leanTy})
+			}
+			for _, t := range f.resTypes {
+				mf.Ret = append(mf.Ret, w.leanType(t))
+			}
+		}
+		m.Funcs = append(m.Funcs, mf)
+	}
+	for _, n := range w.oraOrd {
+		o := w.oracles[n]
+		parts := splitTop(o.typ, " → ")
+		mo := metaOra{Name: n, Type: o.typ, Table: len(parts) > 1}
+		mo.Zero = w.zeroOfLean(parts[len(parts)-1])
+		if mo.Zero == nil {
+			mo.Zero = []string{}
+		}
+		if mo.Table {
+			mo.Zero = append(mo.Zero, "0")
+		}
+		m.Oracles = append(m.Oracles, mo)
+	}
+	for s := range w.pool {
+		m.Pool = append(m.Pool, s)
+	}
+	sort.Strings(m.Pool)
+	b, _ := json.MarshalIndent(m, "", " ")
+	return string(b) + "\n"
+}
+
+// emitShim writes a build-tagged file for package provider exporting the unexported whitelisted functions.
+func (w *world) emitShim() string {
+	var sb strings.Builder
+	sb.WriteString("//go:build verif\n\n// GENERATED by /verif/tools/cmd/go2lean; injected with `go build -overlay`, never written under /repo.\npackage provider\n\n// VerifExports gives the correspondence harness access to unexported helpers.\nvar VerifExports = map[string]interface{}{\n")
+	for _, spec := range whitelist {
+		f := w.funcs[spec.key()]
+		if f.failed != "" && f.decl == nil {
+			continue
+		}
+		if spec.Pkg != "pkg/provider" || spec.Recv != "" {
+			continue
+		}
+		if f.obj == nil || f.obj.Exported() {
+			continue
+		}
+		if _, ok := f.obj.Type().(*types.Signature); !ok {
+			continue
+		}
+		fmt.Fprintf(&sb, "\t%q: %s,\n", spec.Name, spec.Name)
+	}
+	sb.WriteString("}\n")
+	return sb.String()
+}
